@@ -172,7 +172,8 @@ def loc_ob(forms, which, tier):
     region = None
     return Ob(id="C17.loc.%s.%s" % (which, "-".join(forms)), prop="C17", params=params, body=body, replay=replay, pre=pre,
               funcs=FUNCS, skeleton="location table forms=%s decoder=%s" % ("+".join(forms), which),
-              bound="all payload bits symbolic; first line 1..10^6", timeout=60 if tier == "quick" else 400,
+              bound="all payload bits symbolic; first line 1..10^6",
+              timeout=(180 if "n3" in forms and which != "entries" else 60) if tier == "quick" else 400,
               oracle="R-model locations311 (validated vs real 3.11/3.12/3.13); replay on real interpreters",
               region=region)
 
@@ -320,8 +321,10 @@ def generate(tier, seed):
         seqs += [[a, b, c] for a in FORMS8 for b in FORMS8 for c in FORMS8]
     for fs in seqs:
         for which in ("lines", "entries", "positions"):
-            if tier == "quick" and which in ("lines", "positions") and any(f in ("n3", "l3111") for f in fs):
-                continue  # 3-byte varints in the co_lines walker need > 60 s of z3 time: thorough tier only
+            if tier == "quick" and which in ("lines", "positions") and any(f in ("n3", "l3111") for f in fs) and fs != ["n3"]:
+                continue  # 3-byte varints in the co_lines / positions walkers: the single-entry n3 obligations (24 s / 49 s, 180 s
+                #           budget) are in the quick tier since seed C17-j (_scan_varint is not on the `entries` path); l3111 needs
+                #           more than 240 s for these two decoders and stays in the thorough tier
             if tier == "quick" and len(fs) > 1 and all(f.startswith("l") for f in fs):
                 continue  # two long-form entries: > 60 s of z3 time, thorough tier only
             heavy = sum(1 for f in fs if f.startswith("l") or f == "n3")
